@@ -24,7 +24,7 @@ import warnings
 import numpy as np
 
 from harness.core import REPO, PropertyCheck, TieBroken
-from harness.props import c13_tables
+from harness.props import c13_expr, c13_tables
 from harness.props.c13_bayes import BayesMixin
 from harness.props.c13_misc import MiscMixin
 from harness.props.c13_seg import SegMixin, c_ve_step, ve_sim   # noqa: F401  (C glue on the rebuilt mrf.c)
@@ -102,6 +102,51 @@ def _cov_err(C, Cexp, full):
     return float(e[j]), tuple(int(v) for v in j)
 
 
+INT_RANGES = {"int8": (-128, 127), "uint8": (0, 255), "int16": (-2 ** 15, 2 ** 15 - 1), "uint16": (0, 2 ** 16 - 1),
+              "int32": (-2 ** 31, 2 ** 31 - 1), "uint32": (0, 2 ** 32 - 1), "int64": (-2 ** 63, 2 ** 63 - 1)}
+LAYOUTS = ["C", "F", "strided", "neg", "readonly", "T"]
+
+
+def _pick_presentation(rng, xs, allow_f32):
+    """the same numbers in another dtype / memory layout: returns (rows, dtype, layout); integer dtypes
+    round the rows to integers first and are chosen among those that hold every value"""
+    if rng.random() < 0.55:
+        return xs, "float64", "C"
+    layout = rng.choice(LAYOUTS)
+    r = rng.random()
+    if r < 0.3:
+        return xs, "float64", layout if layout != "C" else "F"
+    if r < 0.45 and allow_f32:
+        return xs, "float32", layout
+    xi = [[float(round(v)) for v in row] for row in xs]
+    if rng.random() < 0.3:
+        xi = [[abs(v) for v in row] for row in xi]        # non-negative data: unsigned dtypes become eligible
+    lo = min(min(row) for row in xi); hi = max(max(row) for row in xi)
+    fits = [dt for dt, (a, b) in INT_RANGES.items() if a <= lo and hi <= b]
+    return xi, rng.choice(fits), layout
+
+
+def _present(x, dtype="float64", layout="C"):
+    """array with the values of the float64 matrix `x`, stored as `dtype` in `layout`"""
+    a = np.array(x, dtype=dtype)
+    if not np.array_equal(a.astype(float), x):
+        raise ValueError(f"presentation {dtype} does not hold the values exactly")
+    if layout == "F":
+        a = np.asfortranarray(a)
+    elif layout == "strided":
+        big = np.full((2 * a.shape[0] + 1, 2 * a.shape[1] + 1), 77, dtype=a.dtype)
+        big[1::2, 1::2] = a
+        a = big[1::2, 1::2]
+    elif layout == "neg":
+        a = a[::-1, ::-1].copy()[::-1, ::-1]
+    elif layout == "T":
+        a = np.ascontiguousarray(a.T).T
+    elif layout == "readonly":
+        a = a.copy()
+        a.setflags(write=False)
+    return a
+
+
 def _simplex_fail(name, z, atol=1e-9):
     z = np.asarray(z, dtype=float)
     if not np.all(np.isfinite(z)):
@@ -120,12 +165,14 @@ class C13(PropertyCheck, BayesMixin, SegMixin, MiscMixin):
     id = "C13"
     title = "Mixture-model densities and posteriors are exact and equivariant"
     lean_modules = ["NipyVerif.Props.C13", "NipyVerif.Props.C13B", "NipyVerif.Props.C13S",
-                    "NipyVerif.Props.C13K", "NipyVerif.Props.C13G"]
+                    "NipyVerif.Props.C13K", "NipyVerif.Props.C13G", "NipyVerif.Props.C13E",
+                    "NipyVerif.Props.C13D"]
     driver = "Drivers/C13.lean"
     rule = ("cases are (model family, parameters, data) tuples from a seeded PRNG: dims 1..4, 1..6 components, "
             "dyadic means/data, exactly representable SPD or positive diagonal precisions, simplex weights, "
             "far outliers, zero likelihood rows, empty components / empty classes of a hard labelling, explicit or "
-            "guessed normal-Wishart priors, masks with border voxels, every grid shape up to 4x4x2 for make_edges "
+            "guessed normal-Wishart priors, the same data as float32 / signed and unsigned integers / Fortran, strided, "
+            "negative-stride, transposed and read-only arrays (gmm, mstep, gg cases), masks with border voxels, every grid shape up to 4x4x2 for make_edges "
             "(thorough), operation histories on ONE object (BGMM / VBGMM / IMM / MixedIMM / GMM / GGM / GGGM / "
             "VonMisesMixture / Segmentation / BrainT1Segmentation) with an observation after every call; "
             "non-trivial = at least 2 components or 2 dimensions, a non-uniform initial map, a history of >= 2 calls, "
@@ -153,6 +200,13 @@ class C13(PropertyCheck, BayesMixin, SegMixin, MiscMixin):
         "points of GMM on a BGMM (_Mstep, estimate, train) are outside that API table",
         "the Cython glue _segmentation.pyx cannot be rebuilt: its argument checks are replicated in Python and the C "
         "functions of mrf.c (ve_step, make_edges, interaction_energy) are called through ctypes on the re-compiled source",
+        "source expressions are regenerated for a generic element (component k, axis j, sample i): np.reshape / .T / "
+        "subscripts are read as layout only, the listed np.dot / np.sum shapes as finite sums, `x[z == k]` sums as sums "
+        "weighted by the 0/1 membership; np.log / np.exp / gammaln are named leaves (Rat terms) or Mathlib's functions "
+        "(real terms); a statement shape the translator does not know is a broken tie",
+        "results are functions of the numbers, not of their presentation: data handed over as float32 / (u)int8..64, "
+        "Fortran / strided / negative-stride / transposed / read-only arrays must give what C-contiguous float64 gives "
+        "(oracle; float32 data are not presented to guess_regularizing, which averages in the data's own precision)",
         "gamma shape estimates (_psi_solve), vMF mean normalisation (sqrt) and the digamma terms of VBGMM._Estep are "
         "parameters; kmeans initialisations are run with a fixed NumPy seed",
     ]
@@ -161,7 +215,18 @@ class C13(PropertyCheck, BayesMixin, SegMixin, MiscMixin):
                   "map_from_ppm with both mask options, binarize_ppm), label/translation/scale equivariance of _Mstep, of "
                   "the conjugate normal-Wishart update for every hard labelling, of VBGMM._Mstep and of vm_step, cache "
                   "coherence after any operation history, make_edges memory safety and completeness, ownership of the "
-                  "caller's ppm, KL(p||p) = 0; diagonal-precision component and mixture densities: the expression of unweighted_likelihood_ (regenerated from the source) is a product of Mathlib normal densities and integrates to one over R^d for every d (Props/C13G; np.log/np.exp are parameters; full precision only for d = 1); numeric only: the other normalising constants, special-function values, integrals")
+                  "caller's ppm, KL(p||p) = 0; diagonal-precision component and mixture densities: the expression of "
+                  "unweighted_likelihood_ (regenerated from the source) is a product of Mathlib normal densities and "
+                  "integrates to one over R^d for every d (Props/C13G; full precision only for d = 1); gamma-Gaussian "
+                  "mixtures: _gaus_dens / _gam_dens / GGM.posterior regenerated from the source as real terms ARE Mathlib's "
+                  "normal and gamma densities, each integrates to one and so does the two-class mixture, posterior "
+                  "memberships sum to one (Props/C13D; np.log / np.exp / np.sqrt / gammaln read as the mathematical "
+                  "functions); *_from_source (Props/C13E): pop, _Mstep (weights, means, both covariance branches), "
+                  "guess_regularizing, bic, BGMM.update_weights / update_means / update_precisions, normal_eval, "
+                  "dirichlet_eval, dkl_gaussian, IMM.update_weights, GGM / GGGM Mstep and the right-hand side of the gamma "
+                  "shape equation are regenerated statement by statement from the source as Lean terms and proved equal "
+                  "to the model's definitions; numeric only: Wishart / Dirichlet / von Mises-Fisher normalising "
+                  "constants, full-precision Gaussian integral for d >= 2, special-function values, GGGM three-class integral")
     finding_keys = {}
 
     # ---- tie (a): constants transcribed from mrf.c -------------------------
@@ -177,7 +242,9 @@ class C13(PropertyCheck, BayesMixin, SegMixin, MiscMixin):
         txt = c13_tables.lean_text({"ngb6": NGB6, "ngb26": NGB26})
         from harness import cshim
         cshim.build("segmentation")      # once, in the parent: workers then only dlopen the cached library
-        return [("NipyVerif/Gen/C13Tables.lean", txt), ("NipyVerif/Gen/C13Like.lean", self._like_source())]
+        return [("NipyVerif/Gen/C13Tables.lean", txt), ("NipyVerif/Gen/C13Like.lean", self._like_source()),
+                ("NipyVerif/Gen/C13Expr.lean", c13_expr.lean_text()),
+                ("NipyVerif/Gen/C13Dens.lean", c13_expr.dens_text())]
 
     @staticmethod
     def _like_source():
@@ -304,18 +371,21 @@ class C13(PropertyCheck, BayesMixin, SegMixin, MiscMixin):
                 xs.append(list(c))                     # exactly at a centre
             else:
                 xs.append([c[j] + _dy(rng, -3, 3, 4) for j in range(d)])
+        xs, xdt, xlay = _pick_presentation(rng, xs, True)
         return {"kind": "gmm", "d": d, "k": k, "full": full, "means": means, "prec": prec,
                 "weights": _simplex(rng, k), "x": xs, "perm": rng.sample(range(k), k),
-                "t": [_dy(rng, -8, 8, 2) for _ in range(d)], "grid": rng.random() < 0.35}
+                "t": [_dy(rng, -8, 8, 2) for _ in range(d)], "grid": rng.random() < 0.35,
+                "xdtype": xdt, "xlayout": xlay}
 
     def _gen_mstep(self, rng, d, k):
         n = rng.choice([max(3, d + 1), 6, 9, 14])
         xs = [[_dy(rng, -6, 6, 4) for _ in range(d)] for _ in range(n)]
+        if rng.random() < 0.25:
+            xs[rng.randrange(n)] = [rng.choice([-1, 1]) * rng.choice([64.0, 512.0]) for _ in range(d)]
+        xs, xdt, xlay = _pick_presentation(rng, xs, False)   # float32 data: guess_regularizing works in float32
         for j in range(d):                             # no constant axis (vx_jj = 0 is outside valid data)
             if len({r[j] for r in xs}) == 1:
                 xs[0][j] += 1.0
-        if rng.random() < 0.25:
-            xs[rng.randrange(n)] = [rng.choice([-1, 1]) * rng.choice([64.0, 512.0]) for _ in range(d)]
         mode = rng.choice(["random", "random", "hard", "zero-row", "tiny-row", "empty-comp"])
         like = [[rng.choice([0, 1, 1, 2, 3, 5, 8]) / 8 for _ in range(k)] for _ in range(n)]
         for r in like:
@@ -336,7 +406,8 @@ class C13(PropertyCheck, BayesMixin, SegMixin, MiscMixin):
                 if sum(r) == 0:
                     r[(j + 1) % k] = 0.25
         return {"kind": "mstep", "d": d, "k": k, "full": rng.random() < 0.55, "x": xs, "like": like,
-                "mode": mode, "perm": rng.sample(range(k), k),
+                "mode": mode, "perm": rng.sample(range(k), k), "xdtype": xdt, "xlayout": xlay,
+                "llayout": rng.choice(["C", "C", "F", "strided", "readonly", "T"]),
                 "t": [_dy(rng, -8, 8, 2) for _ in range(d)],
                 "a": [rng.choice([0.25, 0.5, 2.0, 4.0, 3.0, -1.0, 1.0, 10.0]) for _ in range(d)]}
 
@@ -364,7 +435,21 @@ class C13(PropertyCheck, BayesMixin, SegMixin, MiscMixin):
                 xs.append(0.0)
             else:
                 xs.append(_dy(rng, -6, 9, 8))
-        return {"kind": "gg", "x": xs,
+        xdt, xlay = "float64", "C"
+        if rng.random() < 0.45:                        # the same numbers as float32 / integers / other 1-D layouts
+            xlay = rng.choice(["C", "strided", "neg", "readonly"])
+            r = rng.random()
+            if r < 0.25:
+                xdt = "float64" if xlay != "C" else "float32"
+            elif r < 0.4:
+                xdt = "float32"
+            else:
+                xs = [float(round(v)) for v in xs]
+                if rng.random() < 0.4:
+                    xs = [abs(v) for v in xs]
+                fits = [dt for dt, (a, b) in INT_RANGES.items() if a <= min(xs) and max(xs) <= b]
+                xdt = rng.choice(fits)
+        return {"kind": "gg", "x": xs, "xdtype": xdt, "xlayout": xlay,
                 "shape": rng.choice([1.0, 1.5, 2.0, 3.0, 5.5, 8.0]), "scale": rng.choice([0.25, 0.5, 1.0, 2.0, 3.0]),
                 "shape_n": rng.choice([1.0, 1.25, 2.0, 4.0]), "scale_n": rng.choice([0.5, 1.0, 1.5]),
                 "mean": _dy(rng, -2, 2, 4), "var": rng.choice([0.25, 0.5, 1.0, 2.0, 4.0]),
@@ -460,7 +545,9 @@ class C13(PropertyCheck, BayesMixin, SegMixin, MiscMixin):
         means = np.array(c["means"], dtype=float).reshape(k, d)
         prec = np.array(c["prec"], dtype=float).reshape((k, d, d) if full else (k, d))
         w = np.array(c["weights"], dtype=float)
-        x = np.array(c["x"], dtype=float).reshape(-1, d)
+        x64 = np.array(c["x"], dtype=float).reshape(-1, d)
+        pres = (c.get("xdtype", "float64"), c.get("xlayout", "C"))
+        x = _present(x64, *pres)                        # the same numbers, other dtype / layout
         n = x.shape[0]
         g = GMM(k, d, "full" if full else "diag", means.copy(), prec.copy(), w.copy())
         snap = Snapshot(x=x, means=g.means, prec=g.precisions, w=g.weights)
@@ -471,6 +558,18 @@ class C13(PropertyCheck, BayesMixin, SegMixin, MiscMixin):
         popv = g.pop(wl)
         z = g.map_label(x)
         mut = snap.changed()
+        pres_fail = None
+        if pres != ("float64", "C"):                    # the results are a function of the numbers alone
+            gr = GMM(k, d, g.prec_type, means.copy(), prec.copy(), w.copy())
+            for nm, got, ref_ in (("unweighted_likelihood_", lA, gr.unweighted_likelihood_(x64)),
+                                  ("unweighted_likelihood", lB, gr.unweighted_likelihood(x64)),
+                                  ("likelihood", wl, gr.likelihood(x64)),
+                                  ("mixture_likelihood", mix, gr.mixture_likelihood(x64))):
+                if pres_fail is None and not (np.shape(got) == np.shape(ref_) and
+                                              np.allclose(got, ref_, rtol=1e-10, atol=1e-300)):
+                    pres_fail = (f"GMM.{nm}: data given as {pres[0]} / layout {pres[1]} gives {np.asarray(got).ravel().tolist()}, "
+                                 f"the same numbers as C-contiguous float64 give {np.asarray(ref_).ravel().tolist()}")
+        x = x64 if pres[0] != "float64" else x          # float64 values for the model lines and derived data
         # model lines
         from scipy.linalg import eigvalsh
         l2 = float(np.log(2 * np.pi))
@@ -491,7 +590,7 @@ class C13(PropertyCheck, BayesMixin, SegMixin, MiscMixin):
         lines.append(f"post {n} {k} {fr(TINY_GMM)} {_mat(wl)}")
         impl.append(("post", mix.tolist(), None, z.tolist(), popv.tolist()))
         # ---- oracle
-        fail = None
+        fail = pres_fail
         cov = np.array([np.linalg.inv(prec[j]) if full else np.diag(1.0 / prec[j]) for j in range(k)])
         ref = np.array([stats.multivariate_normal(means[j], cov[j], allow_singular=False).pdf(x).reshape(n)
                         for j in range(k)]).T
@@ -539,7 +638,7 @@ class C13(PropertyCheck, BayesMixin, SegMixin, MiscMixin):
             smin = sd.min(); step = max((hi - lo) / (m - 1))
             if step < 0.45 * smin and abs(integral - 1) > 1e-5:
                 fail = f"mixture density integrates to {integral!r} over ±9σ, not 1"
-        tags = ["gmm", "full" if full else "diag", f"d={d}"]
+        tags = ["gmm", "full" if full else "diag", f"d={d}", "x:" + pres[0], "layout:" + pres[1]]
         if (wl.sum(1) < TINY_GMM).any():
             tags.append("underflow-row")
         return {"lines": lines, "impl": impl, "oracle": fail, "nontrivial": k >= 2 or d >= 2,
@@ -549,8 +648,11 @@ class C13(PropertyCheck, BayesMixin, SegMixin, MiscMixin):
     def _run_mstep(self, c):
         from nipy.algorithms.clustering.gmm import GMM
         d, k, full = c["d"], c["k"], c["full"]
-        x = np.array(c["x"], dtype=float).reshape(-1, d)
-        like = np.array(c["like"], dtype=float).reshape(-1, k)
+        x64 = np.array(c["x"], dtype=float).reshape(-1, d)
+        like64 = np.array(c["like"], dtype=float).reshape(-1, k)
+        pres = (c.get("xdtype", "float64"), c.get("xlayout", "C"), c.get("llayout", "C"))
+        x = _present(x64, pres[0], pres[1])             # the same numbers, other dtype / layout
+        like = _present(like64, "float64", pres[2])
         n = x.shape[0]
         pt = "full" if full else "diag"
 
@@ -576,7 +678,7 @@ class C13(PropertyCheck, BayesMixin, SegMixin, MiscMixin):
         cc = float(np.exp(2.0 / d * np.log(k)))
         line = (f"mstep {pt} {n} {d} {k} {fr(cc)} {fr(0.01)} {fr(TINY_GMM)} {_mat(x)} {_mat(like)}")
         # floors: the means / covariances are sums of terms of size |x| / |x|^2 that may cancel to (nearly) zero
-        xm = float(np.abs(x).max()) if x.size else 0.0
+        xm = float(np.abs(x64).max()) if x.size else 0.0
         impl = ("sections", [W.tolist(), M.ravel().tolist(), C.ravel().tolist()], 1e-6, [0.0, xm, xm * xm])
         fail = None
         if not (np.all(np.isfinite(W)) and np.all(np.isfinite(M)) and np.all(np.isfinite(C))):
@@ -587,7 +689,7 @@ class C13(PropertyCheck, BayesMixin, SegMixin, MiscMixin):
         mag = float(np.abs(M).max() + np.abs(t).max()) if np.all(np.isfinite(M)) else 0.0
         if fail is None:
             W2, M2, C2 = fit(x, like[:, p])
-            if max(_abs_scaled(W2, W[p]), _abs_scaled(M2, M[p], float(np.abs(x).max())), _abs_scaled(C2, C[p])) > 1e-9:
+            if max(_abs_scaled(W2, W[p]), _abs_scaled(M2, M[p], float(np.abs(x64).max())), _abs_scaled(C2, C[p])) > 1e-9:
                 fail = f"_Mstep ({pt}): relabelling components by {p} does not permute the fitted parameters"
         # responsibilities of every sample are positive-summing here, populations >= tiny unless empty-comp
         if fail is None:
@@ -613,7 +715,13 @@ class C13(PropertyCheck, BayesMixin, SegMixin, MiscMixin):
                     i = int(np.argmax(np.abs(l[rows] - l0[rows]).sum(1)))
                     fail = (f"_Mstep ({pt}): {nm} the data changes the component likelihoods of sample "
                             f"{x[rows][i].tolist()} under the fitted model: {l[rows][i].tolist()} vs {l0[rows][i].tolist()}")
-        tags = ["mstep", pt, "mode=" + c["mode"]]
+        tags = ["mstep", pt, "mode=" + c["mode"], "x:" + pres[0], "layout:" + pres[1], "like-layout:" + pres[2]]
+        if fail is None and pres != ("float64", "C", "C"):   # the fit is a function of the numbers alone
+            Wr, Mr, Cr = fit(x64, like64)
+            if max(_abs_scaled(Wr, W), _abs_scaled(Mr, M, xm), _abs_scaled(Cr, C, xm * xm)) > 1e-9:
+                fail = (f"_Mstep ({pt}): data given as {pres[0]} / layout {pres[1]} (likelihood layout {pres[2]}) gives weights "
+                        f"{W.tolist()}, means {M.tolist()}, covariances {C.ravel().tolist()}; the same numbers as "
+                        f"C-contiguous float64 give {Wr.tolist()}, {Mr.tolist()}, {Cr.ravel().tolist()}")
         if fail is None and full:                       # VBGMM._Mstep (oracle only)
             from nipy.algorithms.clustering.bgmm import VBGMM
             sl = like.sum(1)
@@ -715,7 +823,11 @@ class C13(PropertyCheck, BayesMixin, SegMixin, MiscMixin):
     def _run_gg(self, c):
         from scipy import stats, integrate
         from nipy.algorithms.clustering import ggmixture as gg
-        x = np.array(c["x"], dtype=float)
+        x64 = np.array(c["x"], dtype=float)
+        pres = (c.get("xdtype", "float64"), c.get("xlayout", "C"))
+        x = _present(x64.reshape(-1, 1), *pres)[:, 0]    # the same numbers, other dtype / 1-D layout
+        if pres[1] == "readonly":
+            x.setflags(write=False)
         n = x.size
         fail = None
         G = gg.GGM(c["shape"], c["scale"], c["mean"], c["var"], c["mixt"])
@@ -724,18 +836,19 @@ class C13(PropertyCheck, BayesMixin, SegMixin, MiscMixin):
         snap = Snapshot(x=x)
         gd = gg._gam_dens(c["shape"], c["scale"], x)
         nd = gg._gaus_dens(c["mean"], c["var"], x)
-        refg = stats.gamma(c["shape"], scale=c["scale"]).pdf(x)
-        refg[x <= 0] = 0.0
-        refn = stats.norm(c["mean"], math.sqrt(c["var"])).pdf(x)
+        refg = stats.gamma(c["shape"], scale=c["scale"]).pdf(x64)
+        refg[x64 <= 0] = 0.0
+        refn = stats.norm(c["mean"], math.sqrt(c["var"])).pdf(x64)
         if not np.allclose(gd, refg, rtol=1e-7, atol=1e-290):
             fail = f"_gam_dens(shape={c['shape']}, scale={c['scale']}) = {gd.tolist()}, gamma density {refg.tolist()}"
         elif not np.allclose(nd, refn, rtol=1e-7, atol=1e-290):
             fail = f"_gaus_dens = {nd.tolist()}, normal density {refn.tolist()}"
         ng, y, pg = G3.component_likelihood(x)
-        refng = stats.gamma(c["shape_n"], scale=c["scale_n"]).pdf(-x); refng[x >= 0] = 0.0
+        refng = stats.gamma(c["shape_n"], scale=c["scale_n"]).pdf(-x64); refng[x64 >= 0] = 0.0
         if fail is None and not (np.allclose(ng, refng, rtol=1e-7, atol=1e-290) and np.allclose(y, refn, rtol=1e-7, atol=1e-290)
                                  and np.allclose(pg, refg, rtol=1e-7, atol=1e-290)):
-            fail = "GGGM.component_likelihood differs from the gamma / normal densities"
+            fail = (f"GGGM.component_likelihood(x={x64.tolist()} as {pres[0]}) = {ng.tolist()}, {y.tolist()}, {pg.tolist()} differs "
+                    f"from the negative-gamma / normal / gamma densities {refng.tolist()}, {refn.tolist()}, {refg.tolist()}")
         # integrates to one
         if fail is None:
             sd = math.sqrt(c["var"])
@@ -766,11 +879,24 @@ class C13(PropertyCheck, BayesMixin, SegMixin, MiscMixin):
                     or _simplex_fail(f"GGGM.posterior(x={x.tolist()})", p3))
         if fail is None and not (np.allclose(p2[:, ::-1], z2, atol=1e-9) and np.allclose(p3, z3, atol=1e-9)):
             fail = "posterior() and Estep() memberships differ"
+        if fail is None and pres != ("float64", "C"):   # the M-step is a function of the numbers alone
+            def par(Gm, xx, zz):
+                Gm.Mstep(xx, zz)
+                names = ("shape", "scale", "mean", "var", "mixt") if isinstance(Gm, gg.GGM) else \
+                    ("shape_n", "scale_n", "mean", "var", "shape_p", "scale_p", "mixt")
+                return np.hstack([np.ravel(getattr(Gm, a_)) for a_ in names]).astype(float)
+            for cls, args, zz in ((gg.GGM, (c["shape"], c["scale"], c["mean"], c["var"], c["mixt"]), z2),
+                                  (gg.GGGM, (c["shape_n"], c["scale_n"], c["mean"], c["var"], c["shape"], c["scale"],
+                                             np.array(c["mixt3"])), z3)):
+                pa, pb = par(cls(*args), x, zz.copy()), par(cls(*args), x64, zz.copy())
+                if fail is None and not np.allclose(pa, pb, rtol=1e-6, atol=1e-12):
+                    fail = (f"{cls.__name__}.Mstep: data {x64.tolist()} given as {pres[0]} / layout {pres[1]} gives parameters "
+                            f"{pa.tolist()}, the same numbers as float64 give {pb.tolist()}")
         wl2 = np.stack([gd * c["mixt"], nd * (1 - c["mixt"])], 1)
         wl3 = np.stack([ng, y, pg], 1) * np.array(c["mixt3"])
         lines = [f"post {n} 2 {fr(TINY_GMM)} {_mat(wl2)}", f"post {n} 3 {fr(TINY_GMM)} {_mat(wl3)}"]
         impl = [("post", None, z2.ravel().tolist(), None, None), ("post", None, z3.ravel().tolist(), None, None)]
-        tags = ["gg"] + (["underflow-row"] if (wl2.sum(1) < TINY_GMM).any() or (wl3.sum(1) < TINY_GMM).any() else [])
+        tags = ["gg", "x:" + pres[0], "layout:" + pres[1]] + (["underflow-row"] if (wl2.sum(1) < TINY_GMM).any() or (wl3.sum(1) < TINY_GMM).any() else [])
         return {"lines": lines, "impl": impl, "oracle": fail, "nontrivial": True, "tags": tags, "mutated": mut}
 
     # .... von Mises-Fisher mixture ....
